@@ -14,6 +14,25 @@ import os
 ENABLED = os.environ.get("PYDROBERT_SPEECH_VERIF") == "1"
 _seq = 0
 _counts = {}
+_depth = 0  # > 0 while a public call runs inside another one (its events are suppressed)
+
+
+def enter():
+    global _depth
+    if ENABLED:
+        _depth += 1
+
+
+def leave():
+    global _depth
+    if ENABLED and _depth > 0:
+        _depth -= 1
+
+
+def emit_outer(event, **fields):
+    """emit, unless called from within another public call of the library"""
+    if ENABLED and _depth == 0:
+        emit(event, **fields)
 
 
 def emit(event, **fields):
